@@ -89,6 +89,11 @@ void vf_harness(void) {
     for (int i = 0; i < VF_N0; i++) { char vs[2] = {(char)vfin.initv[i], 0}; VF_ASSUME(c->putstr(c, KEY[i], vs)); m0.has[i] = 1; m0.val[i] = vfin.initv[i]; }
     g_c = c;
     struct res r1;
+#ifdef VF_SCHED
+    /* tree table: the scheduling point is a per-query constant (the driver enumerates 0 = before, 1..4 = k-th outermost
+     * acquire/release, 99 = after), so that only ONE symbolic restructuring by T2 is encoded per query */
+    vfin.sched = VF_SCHED;
+#endif
     if (vfin.sched == 0) run_t2();
     vf_sched_hook = hook;
     real(c, VF_OP1, vfin.k1 & 1, vfin.v1, &r1);
